@@ -657,7 +657,9 @@ pub fn gen_program_tfc(rng: &mut Rng) -> Program {
         let e = match rng.below(4) {
             0 => Expr::Add(b(Expr::Read(below)), b(Expr::Const(vec![1]))),
             1 => Expr::Add(b(Expr::Read(below)), b(Expr::Read(*rng.pick(&tops)))),
-            2 => Expr::Read(below),
+            2 if rng.chance(1, 2) => Expr::Read(below),
+            // a gate and a firewall read directly (seeded change C03-3)
+            2 => Expr::Add(b(Expr::Read(below)), b(Expr::Read(*rng.pick(&fws)))),
             _ => Expr::Add(b(Expr::Read(below)), b(Expr::Read(*rng.pick(&xs)))),
         };
         nodes.push(Node { kind: Kind::Nm, expr: e });
@@ -818,6 +820,17 @@ pub fn gen_program_wide(rng: &mut Rng) -> Program {
         v.truncate(rng.range(3, 6).min(readers.len() as u64) as usize);
         nodes.push(Node { kind: Kind::Nm, expr: Expr::Join(v) });
     }
+    // many external inputs (added after seeded change C03-5: `refresh` runs
+    // them in chunks) and a node over all of them
+    if rng.chance(1, 2) {
+        let first = nodes.len() as u32;
+        let n_ex = rng.range(5, 13) as u32;
+        for _ in 0..n_ex {
+            nodes.push(Node { kind: Kind::Ex, expr: Expr::Const(vec![]) });
+        }
+        let exs: Vec<u32> = (first..first + n_ex).collect();
+        nodes.push(Node { kind: Kind::Nm, expr: if rng.chance(1, 2) { Expr::Join(exs) } else { Expr::Unord(exs) } });
+    }
     Program { nodes }
 }
 
@@ -827,7 +840,12 @@ pub fn gen_history_wide(rng: &mut Rng, prog: &Program) -> Vec<Op> {
     let ins = prog.of_kind(Kind::In);
     let mut st = HistState { inputs: ins.iter().map(|n| (*n, vec![], vec![])).collect() };
     let n = prog.len();
-    let mut ops = vec![gen_session(rng, prog, &mut st, true)];
+    let exs = prog.of_kind(Kind::Ex);
+    let mut ops = Vec::new();
+    for e in &exs {
+        ops.push(Op::SetWorld { node: *e, val: small_val(rng) });
+    }
+    ops.push(gen_session(rng, prog, &mut st, true));
     let tops: Vec<u32> = (0..n).filter(|i| prog.kind(*i) == Kind::Nm).collect();
     // first epoch: everything is computed
     for t in &tops {
@@ -852,6 +870,14 @@ pub fn gen_history_wide(rng: &mut Rng, prog: &Program) -> Vec<Op> {
         for t in order {
             ops.push(Op::Query { root: t, new_tracked: rng.chance(1, 4) });
         }
+        if !exs.is_empty() {
+            // the world moves a little, everything is refreshed
+            for _ in 0..rng.range(0, 2) {
+                ops.push(Op::SetWorld { node: *rng.pick(&exs), val: small_val(rng) });
+            }
+            ops.push(Op::Session { steps: vec![SessStep::Refresh], commit: true });
+            ops.push(Op::Query { root: n - 1, new_tracked: true });
+        }
     }
     ops
 }
@@ -874,12 +900,26 @@ pub fn gen_history_tfc(rng: &mut Rng, prog: &Program) -> Vec<Op> {
         // the node is verified and only its firewall set is rebuilt), the node
         // is asked again, then the data below the firewalls moves
         let t = top(rng);
+        let fws = prog.of_kind(Kind::Fw);
         ops.push(Op::Query { root: t, new_tracked: true });
         for _ in 0..rng.range(1, 3) {
             let si = rng.usize(n_ins.div_ceil(2));
             cur[si] = 1 - cur[si].clamp(0, 1);
             ops.push(Op::Session { steps: vec![SessStep::Set { node: ins[si], val: vec![cur[si]] }], commit: true });
             ops.push(Op::Query { root: t, new_tracked: true });
+            if !fws.is_empty() && rng.chance(1, 3) {
+                // the data moves and moves back while only a firewall is
+                // asked; then the upper node is asked again: everything it
+                // read has the value it saw (seeded change C03-3)
+                let di = (n_ins.div_ceil(2) + rng.usize((n_ins - n_ins.div_ceil(2)).max(1))).min(n_ins - 1);
+                let orig = cur[di];
+                let f = *rng.pick(&fws);
+                ops.push(Op::Session { steps: vec![SessStep::Set { node: ins[di], val: vec![orig + 1] }], commit: true });
+                ops.push(Op::Query { root: f, new_tracked: true });
+                ops.push(Op::Session { steps: vec![SessStep::Set { node: ins[di], val: vec![orig] }], commit: true });
+                ops.push(Op::Query { root: f, new_tracked: true });
+                ops.push(Op::Query { root: t, new_tracked: true });
+            }
             for _ in 0..rng.range(1, 2) {
                 let di = n_ins.div_ceil(2) + rng.usize((n_ins - n_ins.div_ceil(2)).max(1));
                 let di = di.min(n_ins - 1);
